@@ -332,6 +332,34 @@ Call(s, c) ==
       [] c.call = "mkdirs"   -> Res([s EXCEPT !.fs = SetF(@, c.path, [kind |-> "dir"])], ESUCCESS, NoOut)
 
 ----------------------------------------------------------------------------
+(* host faults.  The error numbers of WASI (the enumeration `errno` of the specification, in its order) by the name of
+   the POSIX error they stand for.  A call that the host lets down - the operation that carries it out fails with some
+   error E although, as far as this model can see, it should have succeeded - returns the number of E, stores nothing
+   in guest memory and changes neither the descriptor table nor (for the operations injected by the binder: the one
+   host function that is the call) the files.  Calls that fail on their own are not combined with a fault. *)
+WasiErrnoOf ==
+    [E2BIG |-> 1, EACCES |-> 2, EADDRINUSE |-> 3, EADDRNOTAVAIL |-> 4, EAFNOSUPPORT |-> 5, EAGAIN |-> 6, EALREADY |-> 7, EBADF |-> 8,
+     EBADMSG |-> 9, EBUSY |-> 10, ECANCELED |-> 11, ECHILD |-> 12, ECONNABORTED |-> 13, ECONNREFUSED |-> 14, ECONNRESET |-> 15,
+     EDEADLK |-> 16, EDESTADDRREQ |-> 17, EDOM |-> 18, EDQUOT |-> 19, EEXIST |-> 20, EFAULT |-> 21, EFBIG |-> 22, EHOSTUNREACH |-> 23,
+     EIDRM |-> 24, EILSEQ |-> 25, EINPROGRESS |-> 26, EINTR |-> 27, EINVAL |-> 28, EIO |-> 29, EISCONN |-> 30, EISDIR |-> 31, ELOOP |-> 32,
+     EMFILE |-> 33, EMLINK |-> 34, EMSGSIZE |-> 35, EMULTIHOP |-> 36, ENAMETOOLONG |-> 37, ENETDOWN |-> 38, ENETRESET |-> 39,
+     ENETUNREACH |-> 40, ENFILE |-> 41, ENOBUFS |-> 42, ENODEV |-> 43, ENOENT |-> 44, ENOEXEC |-> 45, ENOLCK |-> 46, ENOLINK |-> 47,
+     ENOMEM |-> 48, ENOMSG |-> 49, ENOPROTOOPT |-> 50, ENOSPC |-> 51, ENOSYS |-> 52, ENOTCONN |-> 53, ENOTDIR |-> 54, ENOTEMPTY |-> 55,
+     ENOTRECOVERABLE |-> 56, ENOTSOCK |-> 57, ENOTSUP |-> 58, ENOTTY |-> 59, ENXIO |-> 60, EOVERFLOW |-> 61, EOWNERDEAD |-> 62,
+     EPERM |-> 63, EPIPE |-> 64, EPROTO |-> 65, EPROTONOSUPPORT |-> 66, EPROTOTYPE |-> 67, ERANGE |-> 68, EROFS |-> 69, ESPIPE |-> 70,
+     ESRCH |-> 71, ESTALE |-> 72, ETIMEDOUT |-> 73, ETXTBSY |-> 74, EXDEV |-> 75]
+ErrnoTableOK == /\ \A a, b \in DOMAIN WasiErrnoOf : WasiErrnoOf[a] = WasiErrnoOf[b] => a = b
+                /\ {WasiErrnoOf[a] : a \in DOMAIN WasiErrnoOf} = 1..75
+                /\ WasiErrnoOf.EBADF = EBADF /\ WasiErrnoOf.EEXIST = EEXIST /\ WasiErrnoOf.EINVAL = EINVAL /\ WasiErrnoOf.EISDIR = EISDIR
+                /\ WasiErrnoOf.ENOENT = ENOENT /\ WasiErrnoOf.ENOTDIR = ENOTDIR /\ WasiErrnoOf.ENOTEMPTY = ENOTEMPTY
+                /\ WasiErrnoOf.ELOOP = ELOOP /\ WasiErrnoOf.EBUSY = EBUSY
+CallWithFault(s, c) ==
+    LET r0 == Call(s, c)
+    IN  IF c.fault = "" THEN r0
+        ELSE IF r0.errno = ESUCCESS THEN Res(s, WasiErrnoOf[c.fault], NoOut)
+        ELSE Res(s, EUNSPEC, NoOut)
+
+----------------------------------------------------------------------------
 (* invariants of the model state *)
 FsOK(s) == /\ \A n \in 1..Len(s.files) : \A o \in DOMAIN s.files[n].data : LtU(o, s.files[n].size)
            \* every name of a file denotes an existing file, every open file descriptor holds one, and (no hard links)
@@ -361,10 +389,10 @@ FsOut(s) == LET ps == DOMAIN s.fs
             IN Sq(ps)
 Next == /\ h <= Len(Hist)
         /\ IF k < Len(Hist[h].calls)
-           THEN LET r == Call(st, Hist[h].calls[k + 1]) IN
+           THEN LET r == CallWithFault(st, Hist[h].calls[k + 1]) IN
                 /\ st' = r.s /\ k' = k + 1 /\ h' = h
                 /\ TLCSet(1, Append(TLCGet(1), [id |-> Hist[h].id, k |-> k + 1, errno |-> r.errno, out |-> r.out, fs |-> FsOut(r.s)]))
            ELSE h' = h + 1 /\ k' = 0 /\ st' = Init0
-StateOK == FsOK(st) /\ FdsOK(st)
+StateOK == FsOK(st) /\ FdsOK(st) /\ ErrnoTableOK
 Done == TLCGet("level") >= 0 /\ ndJsonSerialize(IOEnv.OUTFILE, TLCGet(1))
 =============================================================================
